@@ -626,3 +626,36 @@ mod tests {
         assert_eq!(state.allocation_to_queue.len(), 0);
     }
 }
+
+#[cfg(feature = "verif")]
+impl RateLimiter {
+    /// Makes `d` of (virtual) time pass for the limiter: equivalent to advancing `now_monotonic`.
+    pub(crate) fn verif_shift_clock(&mut self, d: Duration) {
+        if let Some(t) = self.last_submission {
+            self.last_submission = Some(t.checked_sub(d).unwrap_or(t));
+        }
+    }
+
+    /// (current delay, submission fails, allocation fails, had a submission attempt)
+    pub(crate) fn verif_dump(&self) -> (Duration, u64, u64, bool) {
+        (
+            self.submission_delays[self.current_delay],
+            self.submission_fails,
+            self.allocation_fails,
+            self.last_submission.is_some(),
+        )
+    }
+}
+
+#[cfg(feature = "verif")]
+impl AutoAllocState {
+    pub(crate) fn verif_allocation_to_queue(&self) -> Vec<(AllocationId, QueueId)> {
+        let mut v: Vec<_> = self
+            .allocation_to_queue
+            .iter()
+            .map(|(a, q)| (a.clone(), *q))
+            .collect();
+        v.sort();
+        v
+    }
+}
